@@ -236,6 +236,7 @@ def run(ctx):
     }
     assumptions = ["firmware T3 recurrence as in the property statement; domain |rate_k|, "
                    "|accel_k| <= 2^31-1", "exhaustive over the stated lattice only"]
+    coverage["rule"] += ('; rows whose turning point lies k/|jerk| inside the window edge for |jerk| = 1e8..6e8, T = 4..12, start rate centring the move in the 32-bit range')
     return {"part": part, "coverage": coverage, "assumptions": assumptions}
 
 
